@@ -373,6 +373,19 @@ pub fn run(tier: Tier) -> i32 {
         docs.push(Value::Array(close.iter().rev().map(|x| json!(x)).collect()));
         docs.push(Value::Array((0..m).map(|i| json!(close[(i * 7) % m])).collect()));
         docs.push(Value::Array((0..500).map(|i| json!(1.0 + (((i * 37) % 500) as f64) * f64::EPSILON)).collect()));
+        // integers and doubles of (nearly) the same value above 2^53, interleaved: a comparison that is not a total
+        // order across the two representations makes the standard library's sort panic from 21 elements on
+        {
+            let base: Vec<Value> = vec![
+                json!(9007199254740993u64), json!(9007199254740992.0), json!(9007199254740992u64), json!(9007199254740994u64), json!(9007199254740994.0),
+                json!(9007199254740991u64), json!(9007199254740996.0), json!(9007199254740995u64), json!(-9007199254740993i64), json!(-9007199254740992.0),
+                json!(18446744073709551615u64), json!(1.8446744073709552e19), json!(18446744073709549568u64), json!(9223372036854775807i64), json!(9.223372036854776e18), json!(9223372036854775808u64),
+            ];
+            for (len, mul, add) in [(21usize, 7usize, 0usize), (32, 7, 3), (64, 5, 1), (96, 11, 2), (200, 3, 0), (500, 13, 5)] {
+                docs.push(Value::Array((0..len).map(|i| base[(i * mul + i / 5 + add) % base.len()].clone()).collect()));
+                docs.push(Value::Array((0..len).map(|i| base[(i * i + add) % 8].clone()).collect()));
+            }
+        }
         let calls = ["sum(@)", "avg(@)", "max(@)", "min(@)", "sort(@)", "abs(@)", "ceil(@)", "floor(@)", "to_string(@)", "to_number(@)", "sum(*)", "avg(*)", "sum([])", "sum(@[])", "map(&abs(@), @)", "map(&to_number(@), @)", "sum(map(&to_number(@), @))", "sort_by(@, &@)", "max_by(@, &@)", "abs(sum(@))", "ceil(avg(@))", "length(to_string(@))", "@[0] < @[1]", "sum(@) == avg(@)", "join(',', map(&to_string(@), @))"];
         for d in &docs {
             let rc = value_to_var(d);
@@ -387,6 +400,58 @@ pub fn run(tier: Tier) -> i32 {
                 }
             }
         }
+    }
+    // sort / sort_by over arrays of 21..=24 numbers drawn from four neighbouring values above 2^53 in both
+    // representations: every array that deviates from the constant array in at most three positions
+    {
+        let vals = [json!(9007199254740993u64), json!(9007199254740992u64), json!(9007199254740992.0), json!(9007199254740994u64)];
+        let mut work: Vec<(usize, usize)> = Vec::new();
+        for len in tier.pick(vec![21usize, 22], vec![21, 22, 23, 24, 32, 33]) {
+            for first in 0..len {
+                work.push((len, first));
+            }
+        }
+        let sd = par_sweep(work, |&(len, first), st| {
+            let sort = jmespath::compile("sort(@)").unwrap();
+            let sort_by = jmespath::compile("sort_by(@, &@)").unwrap();
+            let mut run = |arr: &Vec<usize>, st: &mut Stats| {
+                let d = Value::Array(arr.iter().map(|&i| vals[i].clone()).collect());
+                let rc = value_to_var(&d);
+                for (name, e) in [("sort(@)", &sort), ("sort_by(@, &@)", &sort_by)] {
+                    st.states += 1;
+                    st.evaluations += 1;
+                    st.validated += 1;
+                    match guarded(|| e.search(rc.clone()).is_ok()) {
+                        Ok(_) => st.outcome("mixed-representation sort returned"),
+                        Err(m) => st.violate(Violation { key: panic_key(&m), check: "mixed-representation-sort".into(), case: json!({"kind": "search", "expression": name, "document": d}), expected: "Ok or Err".into(), actual: format!("panic: {}", m) }),
+                    }
+                }
+            };
+            // deviations at positions first < j < k (first is the smallest deviating position)
+            let mut arr = vec![0usize; len];
+            if first == 0 {
+                run(&arr, st);
+            }
+            for v1 in 1..4 {
+                arr[first] = v1;
+                run(&arr, st);
+                for j in first + 1..len {
+                    for v2 in 1..4 {
+                        arr[j] = v2;
+                        run(&arr, st);
+                        for k in j + 1..len {
+                            for v3 in 1..4 {
+                                arr[k] = v3;
+                                run(&arr, st);
+                            }
+                            arr[k] = 0;
+                        }
+                    }
+                    arr[j] = 0;
+                }
+            }
+        });
+        st = st.merge(sd);
     }
     // (c) nesting families, one subprocess each
     let depths: Vec<usize> = tier.pick(vec![8, 64, 512, 4096, 32768], vec![8, 64, 512, 4096, 32768, 262144]);
